@@ -32,6 +32,10 @@ func (g *gen) num(d int) {
 		return
 	}
 	g.budget--
+	if g.chance(9) {
+		g.otherForms(d)
+		return
+	}
 	switch k := g.intn(100); {
 	case k < 10:
 		g.numLeaf()
@@ -163,6 +167,130 @@ func (g *gen) num(d int) {
 			g.numLeaf()
 		}
 	}
+}
+
+// otherForms: assert, ignore-errors, thread-first / thread-last, and tagged
+// values (new / user-data / type?) -- operators with an evaluation rule of
+// their own that the scope analysis has to walk like ordinary calls.
+func (g *gen) otherForms(d int) {
+	switch k := g.intn(10); {
+	case k < 2:
+		// (progn (assert C "msg" v) v)
+		g.feat("assert")
+		g.e.head("progn")
+		g.e.head("assert")
+		if g.chance(75) {
+			g.e.head("or")
+			g.cnd(d - 1)
+			g.e.op("true")
+			g.e.close()
+		} else {
+			g.cnd(d - 1)
+		}
+		if g.chance(50) {
+			g.e.lit(`"assertion about helper {}"`)
+			g.numLeaf()
+		}
+		g.e.close()
+		g.num(d - 1)
+		g.e.close()
+	case k < 4:
+		// (or (ignore-errors body...) 0)
+		g.feat("ignore-errors")
+		g.e.head("or")
+		g.e.head("ignore-errors")
+		if g.chance(30) {
+			g.sideEffect(d - 1)
+		}
+		if g.chance(30) {
+			g.e.head("+")
+			g.num(d - 1)
+			g.raise(d - 1)
+			g.e.close()
+		} else {
+			g.num(d - 1)
+		}
+		g.e.close()
+		g.e.lit(g.intLit())
+		g.e.close()
+	case k < 7:
+		g.threadForm(d)
+	default:
+		cs := g.cands(func(b *bind) bool { return b.kind == "deftype" && b.sig != nil })
+		if len(cs) == 0 {
+			g.threadForm(d)
+			return
+		}
+		c := g.pickCand(cs)
+		if g.chance(30) {
+			// (if (type? T (new T ...)) a b)
+			g.feat("type?")
+			g.e.head("if")
+			g.e.head("type?")
+			g.ref(c, "type-spec-arg")
+			g.e.head("new")
+			g.ref(c, "type-spec-arg")
+			g.args(c.b.sig, d)
+			g.e.close()
+			g.e.close()
+			g.num(d - 1)
+			g.num(d - 1)
+			g.e.close()
+			return
+		}
+		g.newOf(c, d)
+	}
+}
+
+// newOf writes (user-data (new T args...)); the tagged value itself never
+// reaches the transcript (it prints the type's name).
+func (g *gen) newOf(c cand, d int) {
+	g.feat("new")
+	g.e.head("user-data")
+	g.e.head("new")
+	g.ref(c, "type-spec-arg")
+	g.args(c.b.sig, d)
+	g.e.close()
+	g.e.close()
+}
+
+// threadForm: (thread-first v (f b) (+ 1)) = (+ (f v b) 1); thread-last puts
+// the threaded value last.  Steps are arithmetic or calls of visible functions
+// of at least one required number and nothing else.
+func (g *gen) threadForm(d int) {
+	last := g.chance(50)
+	if last {
+		g.feat("thread-last")
+		g.e.head("thread-last")
+	} else {
+		g.feat("thread-first")
+		g.e.head("thread-first")
+	}
+	g.num(d - 1)
+	var fs []cand
+	for _, c := range g.cands(isCallable) {
+		s := c.b.sig
+		if s != nil && len(s.req) >= 1 && allNum(s.req) && s.opt == 0 && !s.rest && len(s.keys) == 0 {
+			fs = append(fs, c)
+		}
+	}
+	for i, n := 0, 1+g.intn(3); i < n; i++ {
+		if len(fs) > 0 && g.chance(60) {
+			c := g.pickCand(fs)
+			g.feat("thread-call")
+			g.e.open()
+			g.ref(c, "threaded-call")
+			for range c.b.sig.req[1:] {
+				g.num(d - 1)
+			}
+			g.e.close()
+			continue
+		}
+		g.e.head([]string{"+", "*", "-"}[g.intn(3)])
+		g.num(d - 1)
+		g.e.close()
+	}
+	g.e.close()
 }
 
 func (g *gen) raise(d int) {
